@@ -4,7 +4,7 @@ CONSTANTS
   NAtoms = 3
   Keys = {1, 2}
   SiteOps = {"eq", "le", "ge", "in", "dict", "none"}
-  ChildOps = {"deq", "dle"}
+  ChildOps = {"deq", "dle", "dget"}
   WrongOps = {"eq", "in"}
   ChgOK = TRUE
   HostileOK = FALSE
